@@ -26,9 +26,10 @@ from vplib.common import coq_str, coq_bool, coq_opt
 
 POSITIONS = ["id", "lpath_dst", "lpath_src", "cdir", "name", "address", "message"]
 
-# oracle tags -> known-finding slugs that may explain them
-K_ESC, K_VAL, K_TRIM, K_EMPTY, K_COLL = ("json-escape-borrowed", "validator-json-escape", "id-trimmed",
-                                         "cdir-empty", "cdir-collides-with-inventory")
+# oracle tags -> known-finding slugs that may explain them.  The former classes cdir-empty and
+# cdir-collides-with-inventory were repaired in /repo (d88c1da, repo.rs:574-583): their inputs are still
+# generated (blank, inventory.json, inventory.json.<anything> and the neighbouring names) and MUST pass.
+K_ESC, K_VAL, K_TRIM = ("json-escape-borrowed", "validator-json-escape", "id-trimmed")
 
 
 # --------------------------------------------------------------------------- generators
@@ -66,6 +67,13 @@ def gen_strings(ctx):
     for s in ["inventory.json", "inventory.json.sha512", "inventory.json.sha256", "inventory.json.md5", "content", "v1", "v2",
               "extensions", "extensions/0005-mutable-head", "0=ocfl_object_1.1", "logs", "CON", "null", "true", "0", "-"]:
         add("reserved", s)
+    # the guard of create_object (repo.rs:574-583) and its neighbours: refused are "", inventory.json and every
+    # name beginning with "inventory.json."; everything else here is an ordinary directory name
+    for s in ["inventory.json.", "inventory.json.x", "inventory.json.sha512x", "inventory.json.SHA512", "inventory.json.blake2b-512",
+              "inventory.json. ", "inventory.json.\u00e9", "inventory.json.a\"b", "inventory.json..", "inventory.jso", "inventory.jsonx",
+              "inventory.json ", " inventory.json", "Inventory.json", "INVENTORY.JSON", "inventory_json", "inventory.json\n",
+              "xinventory.json", "inventory", ".inventory.json", "inventory.json\u200b", "sha512", "inventory.json.sha512.bak"]:
+        add("cdir-guard", s)
     for s in ["x" * 255, "x" * 256, "\u00e9" * 127 + "x", "\u00e9" * 128, "x" * 254 + '"', "y" * 300, "x" * 5000, "\x01" * 5000,
               '"' * 2500, "\u00e9" * 2500, "a b" * 1700, "\\" * 5000, "\U0001F600" * 1250, ("x" * 200 + "/") * 4 + "f", ("x" * 250 + "/") * 20 + "f"]:
         add("long", s)
@@ -348,6 +356,9 @@ def analyse(case, o):
             return None
         return inv_t[1]
 
+    if not o["new_ok"] and not o.get("nothing_staged", True):
+        msgs.append(("create_object refused the input but left a staged object behind", []))
+
     if pos == "id":
         stored = None
         if o["new_ok"]:
@@ -394,9 +405,9 @@ def analyse(case, o):
                     else:
                         want_token(o["staged1"], exp_cp, "content path")
             if not staged_ok:
-                msgs.append(("create_object accepted the content directory, the staged object cannot be opened/listed", [K_EMPTY]))
+                msgs.append(("create_object accepted the content directory, the staged object cannot be opened/listed", []))
             if not commit_ok:
-                msgs.append(("create_object accepted the content directory, commit fails", [K_EMPTY, K_COLL]))
+                msgs.append(("create_object accepted the content directory, commit fails", []))
             elif not later_reads_ok:
                 msgs.append(("committed object cannot be opened/listed", []))
             else:
@@ -496,7 +507,7 @@ def analyse(case, o):
 
 KNOWN_FLAGS = {
     "id": [K_TRIM, K_VAL],
-    "cdir": [K_EMPTY, K_COLL, K_VAL],
+    "cdir": [K_VAL],
     "lpath_dst": [K_ESC, K_VAL],
     "lpath_src": [K_ESC, K_VAL],
     "name": [K_VAL], "address": [K_VAL], "message": [K_VAL],
